@@ -2601,6 +2601,106 @@ let ms_init names p0 =
     ((((Npos (XO (XO (XI (XO (XI (XI XH))))))) :: ((Npos (XO (XI (XO (XO (XI
     (XI XH))))))) :: [])), []) :: []) }
 
+type pkey =
+| PK of n
+| PMulti of pkey list
+
+type sg =
+| SPlain of n * n
+| SMulti of sg list
+| SGarbage
+
+(** val verify : pkey -> n -> sg -> bool **)
+
+let rec verify k m s =
+  match k with
+  | PK id ->
+    (match s with
+     | SPlain (b, o) -> (&&) (N.eqb b id) (N.eqb o m)
+     | _ -> false)
+  | PMulti ks ->
+    (match s with
+     | SMulti sigs ->
+       let rec go ks0 sigs0 =
+         match ks0 with
+         | [] -> (match sigs0 with
+                  | [] -> true
+                  | _ :: _ -> false)
+         | k1 :: kr ->
+           (match sigs0 with
+            | [] -> false
+            | s1 :: sr -> (&&) (verify k1 m s1) (go kr sr))
+       in go ks sigs
+     | _ -> false)
+
+type armor = n * bytes
+
+(** val unarmor : armor -> bytes -> n option **)
+
+let unarmor a pass =
+  if beqb (snd a) pass then Some (fst a) else None
+
+(** val addr_of : n -> bytes **)
+
+let addr_of id =
+  id :: []
+
+type kb = armor amap
+
+type kres =
+| KOk
+| KErr
+| KSig of sg
+| KArmor of armor
+
+type kop =
+| KCreate of n * bytes
+| KImport of armor * bytes * bytes
+| KUpdate of bytes * bytes * bytes
+| KDelete of bytes * bytes
+| KSign of bytes * bytes * n
+| KExport of bytes * bytes * bytes
+
+(** val kstep : kb -> kop -> kb * kres **)
+
+let kstep s = function
+| KCreate (id, pass) -> ((aset s (addr_of id) (id, pass)), KOk)
+| KImport (a, dp, np) ->
+  (match unarmor a dp with
+   | Some id ->
+     (match aget s (addr_of id) with
+      | Some _ -> (s, KErr)
+      | None -> ((aset s (addr_of id) (id, np)), KOk))
+   | None -> (s, KErr))
+| KUpdate (ad, op, np) ->
+  (match aget s ad with
+   | Some a ->
+     (match unarmor a op with
+      | Some id -> ((aset s (addr_of id) (id, np)), KOk)
+      | None -> (s, KErr))
+   | None -> (s, KErr))
+| KDelete (ad, p0) ->
+  (match aget s ad with
+   | Some a ->
+     (match unarmor a p0 with
+      | Some _ -> ((adel s ad), KOk)
+      | None -> (s, KErr))
+   | None -> (s, KErr))
+| KSign (ad, p0, m) ->
+  (match aget s ad with
+   | Some a ->
+     (match unarmor a p0 with
+      | Some id -> (s, (KSig (SPlain (id, m))))
+      | None -> (s, KErr))
+   | None -> (s, KErr))
+| KExport (ad, dp, ep) ->
+  (match aget s ad with
+   | Some a ->
+     (match unarmor a dp with
+      | Some id -> (s, (KArmor (id, ep)))
+      | None -> (s, KErr))
+   | None -> (s, KErr))
+
 (** val be_bytes : nat -> z -> bytes **)
 
 let rec be_bytes n0 z0 =
